@@ -234,7 +234,7 @@ func c10Case(env *Env, tape *sim.Tape) *CaseOut {
 			out.stat("probe_helper_returned_error", 1)
 			if !bytes.Equal(op.Out, orig) {
 				return fail("input-not-handed-back", fmt.Sprintf("%s reported %q and returned %d bytes %q, which is not the caller's data %q",
-					entryName(entry), op.Err.Error(), len(op.Out), corpus.Short(op.Out, 100), corpus.Short(orig, 100)))
+					entryName(entry), errText(op.Err), len(op.Out), corpus.Short(op.Out, 100), corpus.Short(orig, 100)))
 			}
 		}
 	}
